@@ -47,6 +47,7 @@ type gcfg struct {
 	t0     int64
 	gcSec  int64 // effective
 	gcSet  bool
+	modAt  int // 0: none; k+1: request-rewriting processor after the first k limiters
 	expSet []bool
 	early  bool
 	tp     topo
@@ -74,7 +75,11 @@ func (g gcfg) body() string {
 	if g.expSet != nil && !g.gcSet {
 		gcw = "-"
 	}
-	fmt.Fprintf(&b, "gc=%s early=%d order=%s", gcw, e, strings.Join(ord, ","))
+	fmt.Fprintf(&b, "gc=%s early=%d", gcw, e)
+	if g.modAt > 0 {
+		fmt.Fprintf(&b, " mod=%d", g.modAt-1)
+	}
+	fmt.Fprintf(&b, " order=%s", strings.Join(ord, ","))
 	for i, q := range g.tp.quotas {
 		ex := fmt.Sprint(g.expSec[i])
 		if g.expSet != nil && !g.expSet[i] {
@@ -124,6 +129,10 @@ func randCfg(r *prng.R, tp topo) gcfg {
 				g.expSec[i] = defaultExpSec
 			}
 		}
+	}
+	// a processor that only rewrites the request, somewhere on the admitted path
+	if r.Chance(25) {
+		g.modAt = r.Range(0, len(tp.order)) + 1
 	}
 	// quota filters narrower than / different from the flow's filter (host/*): one method only, one path only, a
 	// required request header
@@ -561,6 +570,38 @@ func reloadFamily(emit func(proto.Case)) {
 	}
 }
 
+// a request-rewriting processor (TransformAPICall) at every position of the admitted path: before the limiters, between
+// two, after the last one (with and without the flow answering POST requests itself afterwards). A rewritten request
+// goes on to the provider: the transaction is in flight and keeps its slots until its response / error report / expiry.
+func rewriteFamily(emit func(proto.Case)) {
+	id := 0
+	for _, tp := range []topo{topos[0], topos[1], topos[3], topos[6], topos[13]} {
+		for pos := 0; pos <= len(tp.order); pos++ {
+			for _, early := range []bool{false, true} {
+				n := len(tp.quotas)
+				g := gcfg{t0: baseT0, gcSec: 1, early: early, tp: tp, modAt: pos + 1, max: make([]int64, n), expSec: make([]int64, n)}
+				for i := range tp.quotas {
+					g.max[i], g.expSec[i] = 1, 2
+				}
+				h := &hist{g: g, now: g.t0}
+				h.ops = append(h.ops, g.line())
+				h.req(1, false) // admitted and forwarded (rewritten)
+				h.req(2, false) // refused: the first one is in flight
+				h.req(3, true)  // refused as well (POST)
+				h.resp(1)
+				h.req(4, true) // POST: admitted; answered by the flow itself when `early`
+				h.req(5, false)
+				h.ops = append(h.ops, "err r=5")
+				h.req(6, false)
+				h.apply("expire 0")
+				h.req(7, false)
+				id++
+				emit(proto.Case{ID: fmt.Sprintf("rewrite%d", id), Ops: h.ops})
+			}
+		}
+	}
+}
+
 func gen(r *prng.R, f proto.Flags, emit func(proto.Case)) {
 	n := 1500
 	if f.Tier == "thorough" {
@@ -592,6 +633,7 @@ func gen(r *prng.R, f proto.Flags, emit func(proto.Case)) {
 		}
 	}
 	defaultsFamily(emit)
+	rewriteFamily(emit)
 	reloadFamily(emit)
 	genStress(emit, f.Tier == "thorough")
 	if f.Tier == "thorough" {
